@@ -97,6 +97,20 @@ def gen_script(rng, max_ops, profile):
     def value():
         return rng.range(1, 900)
 
+    def jobacts():
+        # what the callback of the next current-thread run does besides reading: it marks components of some entities
+        # dirty / obtains them for writing while it processes entity number idx (if the run gets that far)
+        out_ = []
+        hs_ = [h for h in live_handles() if st.comps.get(h) and h not in st.pending_new]
+        for _ in range(rng.range(1, 2)):
+            if not hs_:
+                break
+            h = rng.pick(hs_)
+            cs_ = [c for c in sorted(st.comps[h]) if c in (0, 1, 2)]
+            if cs_:
+                out_.append('jobact %d %s #%d %d' % (rng.below(3), rng.pick(['markdirty', 'getmut']), h, rng.pick(cs_)))
+        return out_
+
     stale = profile.get('stale', 0)
     for _ in range(nops):
         tid = rng.below(T + 1) if (depth > 0 and armed) else 0
@@ -355,7 +369,13 @@ def gen_script(rng, max_ops, profile):
                 st.shared[st.n] = set()
                 st.n += 1
             if rng.chance(2, 3):
-                lines.append('runjob %d %d' % (rng.below(njobs), rng.below(2)))
+                jb_ = rng.below(njobs)
+                if profile.get('jobacts') and rng.chance(1, 2):
+                    lines.extend(jobacts())
+                    lines.append('runjob %d 0' % jb_)
+                    lines.append('runjob %d 0' % jb_)     # the same job again: what it modified itself must be seen
+                else:
+                    lines.append('runjob %d %d' % (jb_, rng.below(2)))
         elif choice == 'bulk':
             # fill one archetype to k*cs + r entities (r = 0, 1, 2), let the jobs catch up, then remove an early member:
             # the swap-remove shrinks the archetype across a version-chunk boundary
@@ -408,6 +428,27 @@ def gen_script(rng, max_ops, profile):
                 if rng.chance(2, 3):
                     mode = rng.below(2)
                     lines.append('runjob %d %d%s' % (j, mode, (' %d' % rng.range(1, 6)) if mode else ''))
+        elif choice == 'createremove':
+            # one locked section creates an entity and removes one of the requested components again (one pack, no assign):
+            # with declared dependencies the dependents of the removed master stay, as in program order
+            if depth:
+                continue
+            k = rng.range(1, min(3, len(pals)))
+            cs = sorted(set(rng.pick([p_ for p_ in pals if p_ < 8] or pals) for _ in range(k)))
+            cs = [c for c in cs if c < 8]
+            if not cs:
+                continue
+            rm = rng.pick(cs)
+            rest = set(cs) - {rm}
+            if rm in closure(rest):
+                continue        # removing a dependent of a remaining master has no effect: nothing to see
+            lines.append('lock')
+            lines.append('create 0 %s' % ' '.join(map(str, cs)))
+            lines.append('remove 0 #%d %d' % (st.n, rm))
+            lines.append('unlock')
+            st.comps[st.n] = closure(closure(cs) - {rm})
+            st.shared[st.n] = set()
+            st.n += 1
         elif choice == 'recycle':
             # a destroyed entity's id is reused at once; under lock one thread then records a command through the stale handle
             # right next to commands on the new owner of that id
@@ -438,6 +479,8 @@ def gen_script(rng, max_ops, profile):
         elif choice == 'runjob':
             if depth == 0 and njobs:
                 mode = rng.below(2)
+                if mode == 0 and profile.get('jobacts') and rng.chance(1, 2):
+                    lines.extend(jobacts())
                 t = ''
                 if mode == 1 and rng.chance(1, 2):
                     t = ' %d' % rng.range(1, max(1, len(st.comps)) + 1)
@@ -499,7 +542,7 @@ PROFILE_BASIC = {
     'threads': [0, 0, 1, 2, 3], 'pals': [0, 1, 2, 3, 4, 5, 6, 7], 'chunkcap': [0, 2, 3, 4, 8],
     'verchunk': [1, 2, 3, 5, 1024], 'deps': 0, 'shared': [], 'createarch': True,
     'weights': {'create': 26, 'destroynow': 10, 'destroy': 5, 'assign': 14, 'remove': 9, 'set': 8, 'get': 6,
-                'clone': 3, 'update': 4, 'cleararch': 2, 'lock': 6, 'unlock': 9, 'build': 7, 'recycle': 2},
+                'clone': 3, 'update': 4, 'cleararch': 2, 'lock': 6, 'unlock': 9, 'build': 7, 'recycle': 2, 'createremove': 2},
 }
 
 
@@ -550,6 +593,7 @@ def profile(name):
         p['chunkcap'] = [2, 3, 4, 5] if name == 'C04' else [0, 4]
         p['verchunk'] = [1, 2, 3, 4, 5, 6]
         p['createarch'] = False
+        p['jobacts'] = name in ('C07', 'C11')
         p['jobs'] = [{'reqs': [(0, 1)], 'check': [0]}, {'reqs': [(0, 0)], 'check': []}, {'reqs': [(0, 1), (1, 3)], 'check': [0]},
                      {'reqs': [(0, 1), (1, 1)], 'check': [0, 1]}, {'reqs': [(1, 0), (2, 3)], 'check': [1]}, {'reqs': [(0, 1)], 'check': []},
                      {'reqs': [(1, 1), (0, 1)], 'check': [1]}, {'reqs': [(2, 0), (4, 3)], 'check': [2]}]
